@@ -112,6 +112,70 @@ def path_witness(f, start_block, closer_blocks, limit=12):
     return out[-limit:]
 
 
+_some_summary = {}
+
+
+def returns_some(fx, g, depth=0):
+    """components of g's return value that are `Some` on every return path: {'self'} for an Option, {0, 1, ..} for a tuple of Options"""
+    key = (id(fx), g.path)
+    if key in _some_summary:
+        return _some_summary[key]
+    _some_summary[key] = set()      # recursion guard
+    out = None
+    for bi, bl in enumerate(g.blocks):
+        for si, s in enumerate(bl["s"]):
+            if s[0] != "a" or s[1][0] != 0 or s[1][1]:
+                continue
+            known = some_facts_at(fx, g, bi, upto=si) if depth < 2 else frozenset()
+            comps = set()
+            rv = s[2]
+            if rv[0] == "agg" and rv[1].get("k") == "adt" and rv[1].get("v") == "Some":
+                comps.add("self")
+            elif rv[0] == "agg" and rv[1].get("k") == "tuple":
+                for i, o in enumerate(rv[2]):
+                    if o[0] in ("c", "m") and not o[1][1] and o[1][0] in known:
+                        comps.add(i)
+            elif rv[0] == "use" and rv[1][0] in ("c", "m") and not rv[1][1][1] and rv[1][1][0] in known:
+                comps.add("self")
+            out = comps if out is None else (out & comps)
+    _some_summary[key] = out or set()
+    return _some_summary[key]
+
+
+def _transfer(fx, f, b, known, upto=None):
+    k = set(known)
+    stmts = f.blocks[b]["s"] if upto is None else f.blocks[b]["s"][:upto]
+    for s in stmts:
+        if s[0] != "a" or s[1][1]:
+            continue
+        d = s[1][0]
+        rv = s[2]
+        k.discard(d)
+        k = {x for x in k if not (isinstance(x, tuple) and x[0] == d)}
+        if rv[0] == "agg" and rv[1].get("k") == "adt" and rv[1].get("v") == "Some":
+            k.add(d)
+        elif rv[0] == "agg" and rv[1].get("k") == "tuple":
+            for i, o in enumerate(rv[2]):
+                if o[0] in ("c", "m") and not o[1][1] and o[1][0] in k:
+                    k.add((d, i))
+        elif rv[0] == "use" and rv[1][0] in ("c", "m"):
+            src = rv[1][1]
+            if not src[1] and src[0] in k:
+                k.add(d)
+            elif len(src[1]) == 1 and isinstance(src[1][0], list) and src[1][0][0] == "f" and (src[0], src[1][0][1]) in k:
+                k.add(d)
+    if upto is None:
+        t = f.blocks[b]["t"]
+        if t[0] == "call" and not t[3][1]:
+            k.discard(t[3][0])
+            k = {x for x in k if not (isinstance(x, tuple) and x[0] == t[3][0])}
+            g = fx.fns.get(t[1].get("d")) if t[1].get("local") else None
+            if g is not None and not g.closure and g.path != f.path:
+                for c in returns_some(fx, g):
+                    k.add(t[3][0] if c == "self" else (t[3][0], c))
+    return frozenset(k)
+
+
 def escapes_some_sensitive(fx, f, start_block, closer_blocks, assume=()):
     """like `escapes`, but path sensitive for Option locals known to be `Some` along the path
     (`let (saved, m) = if c { install; (Some(a), Some(b)) } else { (None, None) }` followed by
@@ -125,30 +189,7 @@ def escapes_some_sensitive(fx, f, start_block, closer_blocks, assume=()):
             switches[sb] = (place[0], other)
 
     def transfer(b, known):
-        k = set(known)
-        for s in f.blocks[b]["s"]:
-            if s[0] != "a" or s[1][1]:
-                continue
-            d = s[1][0]
-            rv = s[2]
-            k.discard(d)
-            k = {x for x in k if not (isinstance(x, tuple) and x[0] == d)}
-            if rv[0] == "agg" and rv[1].get("k") == "adt" and rv[1].get("v") == "Some":
-                k.add(d)
-            elif rv[0] == "agg" and rv[1].get("k") == "tuple":
-                for i, o in enumerate(rv[2]):
-                    if o[0] in ("c", "m") and not o[1][1] and o[1][0] in k:
-                        k.add((d, i))
-            elif rv[0] == "use" and rv[1][0] in ("c", "m"):
-                src = rv[1][1]
-                if not src[1] and src[0] in k:
-                    k.add(d)
-                elif len(src[1]) == 1 and isinstance(src[1][0], list) and src[1][0][0] == "f" and (src[0], src[1][0][1]) in k:
-                    k.add(d)
-        t = f.blocks[b]["t"]
-        if t[0] == "call" and not t[3][1]:
-            k.discard(t[3][0])
-        return frozenset(k)
+        return _transfer(fx, f, b, known)
 
     seen = set()
     # facts established inside the start block itself (the install and the tuple are often one block)
@@ -173,34 +214,11 @@ def escapes_some_sensitive(fx, f, start_block, closer_blocks, assume=()):
     return None
 
 
-def some_facts_at(fx, f, block):
+def some_facts_at(fx, f, block, upto=None):
     """Option locals (and tuple components) that hold `Some` on every path from the function entry to `block`
-    (forward must-analysis with the transfer function of escapes_some_sensitive)"""
+    (forward must-analysis; calls of local functions contribute what they always return as `Some`)"""
     def transfer(b, known):
-        k = set(known)
-        for s in f.blocks[b]["s"]:
-            if s[0] != "a" or s[1][1]:
-                continue
-            d = s[1][0]
-            rv = s[2]
-            k.discard(d)
-            k = {x for x in k if not (isinstance(x, tuple) and x[0] == d)}
-            if rv[0] == "agg" and rv[1].get("k") == "adt" and rv[1].get("v") == "Some":
-                k.add(d)
-            elif rv[0] == "agg" and rv[1].get("k") == "tuple":
-                for i, o in enumerate(rv[2]):
-                    if o[0] in ("c", "m") and not o[1][1] and o[1][0] in k:
-                        k.add((d, i))
-            elif rv[0] == "use" and rv[1][0] in ("c", "m"):
-                src = rv[1][1]
-                if not src[1] and src[0] in k:
-                    k.add(d)
-                elif len(src[1]) == 1 and isinstance(src[1][0], list) and src[1][0][0] == "f" and (src[0], src[1][0][1]) in k:
-                    k.add(d)
-        t = f.blocks[b]["t"]
-        if t[0] == "call" and not t[3][1]:
-            k.discard(t[3][0])
-        return frozenset(k)
+        return _transfer(fx, f, b, known)
     n = len(f.blocks)
     IN = [None] * n
     IN[0] = frozenset()
@@ -213,4 +231,5 @@ def some_facts_at(fx, f, block):
             if IN[s] is None or new != IN[s]:
                 IN[s] = new
                 work.append(s)
-    return IN[block] or frozenset()
+    base = IN[block] or frozenset()
+    return _transfer(fx, f, block, base, upto=upto) if upto is not None else base
